@@ -427,6 +427,6 @@ SATELLITES = [("C03", ["ModifierChange", "repair_snapshots", "copy_tail", "copy_
 META = {"not_covered": [
     "merge: Tree::from_backend of the inputs (iterator adapters; the fill loop of the heap IS unit merge_fill_heap), which conflicting entry wins beyond 'one of the group' (the caller's cmp closure), the recursion into sub-directories (stub), BinaryHeap semantics (assumed); the heap order, the merge loop and merge_nodes ARE units",
     "what the visitors answer for trees as a whole (pre_process_tree: unreadable trees replaced by empty ones) -- in modify_tree the visitor is a stub with arbitrary answers",
-    "copy: TreeStreamerOnce (threads), the two filter closures (stubs: 'not in the destination index') and the lookup of the collected ids in the source index; the per-tree node loop IS a unit, the byte-exact copy is C02's BlobCopier units, the ordering C03's copy_tail",
+    "copy: TreeStreamerOnce itself (threads; its use IS unit copy_walk: it must start from all roots), the two filter closures (stubs: 'not in the destination index') and the lookup of the collected ids in the source index; the per-tree node loop IS a unit, the byte-exact copy is C02's BlobCopier units, the ordering C03's copy_tail",
     "'restores identically' / 'union of paths' as whole-command statements",
 ]}
